@@ -27,7 +27,7 @@ struct FieldOperatorPart ghost_parts_by_left[1];
 #define PART_BY_LEFT(op, l) (&(op)->ghost_parts_by_left[0] + (l))
 #define H_PART(h, b) (&(h)->ghost_parts[0] + (b))
 #define DM_PART(d, b) (&(d)->ghost_parts[0] + (b))
-//@struct Pomerol::EnsembleAverage embed=A,H,DM,S skip=S
+//@struct Pomerol::EnsembleAverage embed=A,H,DM
 
 struct EnsembleAverage *g_self;
 _Bool __CPROVER_uninterpreted_retained(int);
@@ -99,3 +99,42 @@ void h_EA_prepare(void)
   EnsembleAverage_prepare(ea);
   if (g_n_compute == 0) REACH("nothing_added"); else REACH("added");
 }
+
+//@struct Pomerol::Thermal
+//@tu src/pomerol/Thermal.cpp
+//@global I
+//@function Pomerol::Thermal::Thermal(double) as Thermal_ctor1x
+//@end
+#define Thermal_ctor1(base_, beta_) Thermal_init1x((base_), (beta_))
+//@tu src/pomerol/EnsembleAverage.cpp
+/* ---- copy constructor (EnsembleAverage.h "Copy-constructor. \param[in] EA EnsembleAverage object to be copied."; a copy is an
+ * independent object in the same state): Status and result of the copy are the source's -- a copy of a prepared average IS prepared and
+ * carries the value, so prepare() on it adds nothing (h_EA_prepare, first post-condition) --, beta / MatsubaraSpacing are the source's
+ * (MatsubaraSpacing given the Thermal invariant I*pi/beta of the source), the references refer to the same objects; the source is not modified.
+ * TRUSTED: the implicit copy constructor of ComputableObject copies Status (its only member); the model asserts that the object
+ * handed to it is the source. */
+#define SPEC_PI 3.14159265358979323846
+#define ComputableObject_ctor1(base_, src_) ({ \
+  __CPROVER_assert((void *)(src_) == (void *)EA, "ComputableObject(const ComputableObject&): the object copied is the source EA"); \
+  (void)(self->Status = EA->Status); })
+#define ComputableObject_ctor0(base_) ((void)(self->Status = Constructed))
+//@function Pomerol::EnsembleAverage::EnsembleAverage(Pomerol::EnsembleAverage const&) as EnsembleAverage_ctor1
+//@contract
+__CPROVER_requires(__CPROVER_is_fresh(self, sizeof(*self)) && __CPROVER_is_fresh(EA, sizeof(*EA)))
+__CPROVER_requires(C_SAME(EA->MatsubaraSpacing, op_div_cplx_double(op_mul_cplx_double(I, SPEC_PI), EA->beta)))
+__CPROVER_assigns(*self)
+__CPROVER_ensures(self->Status == EA->Status)
+__CPROVER_ensures(C_SAME(self->result, EA->result))
+__CPROVER_ensures(D_SAME(self->beta, EA->beta) && C_SAME(self->MatsubaraSpacing, EA->MatsubaraSpacing))
+__CPROVER_ensures(self->S == EA->S && self->H.nblocks == EA->H.nblocks && self->DM.nblocks == EA->DM.nblocks && D_SAME(self->DM.beta, EA->DM.beta))
+__CPROVER_ensures(self->A.Status == EA->A.Status && self->A.LeftRightBlocks.left.e == EA->A.LeftRightBlocks.left.e && self->A.LeftRightBlocks.left.n == EA->A.LeftRightBlocks.left.n)
+//@end
+//@harness h_EA_copy enforce=EnsembleAverage_init1 props=C09,C14 min_obl=303 reach=1 timeout=120
+void h_EA_copy(void)
+{
+  struct EnsembleAverage *ea, *src;
+  EnsembleAverage_init1(ea, src);
+  REACH("exit");
+}
+/* MUTANTS h_EA_copy: drop `result(EA.result)` / `result(0)` -> EnsembleAverage_init1.postcondition.2;
+ *   `ComputableObject(EA)` -> `ComputableObject()` -> EnsembleAverage_init1.postcondition.1 */
